@@ -296,6 +296,10 @@ const XMLCh * DOMCharacterDataImpl::substringData(const DOMNode *node, XMLSize_t
     if (offset > len)
         throw DOMException(DOMException::INDEX_SIZE_ERR, 0, GetDOMCharacterDataImplMemoryManager);
 
+    // all characters up to the end of the data when offset + count exceeds the length
+    if (count > len - offset)
+        count = len - offset;
+
     DOMDocumentImpl *doc = (DOMDocumentImpl *)node->getOwnerDocument();
 
     XMLCh* newString;
